@@ -191,13 +191,17 @@ TEXT["C17"] = {
 TEXT["C18"] = {
     "design_ref": "DESIGN.md §4.18",
     "technique": "Lean 4 non-interference theorem over the configuration model (responses are independent of password values, for all configurations, requests and backends) + generated list of viper key literals + differential correspondence on generated configurations rendered with two password assignments",
-    "text": ("Proof: Props/C18.lean states the property as non-interference and proves it: for every backend, world, method and path, replacing the configuration by one with the same keys that "
-             "differs only in the values of sasl.<p>.password / notifier.<n>.password leaves every response (and the world) unchanged (responses_independent_of_passwords, "
-             "handler_independent_of_passwords) — including dotted names that reach into other sections, by a key-shape argument (not_password_of_suffix, leavesUnder_same) — and the scrape does not "
-             "read configuration at all; `decide` over the viper key literals REGENERATED from package httpserver shows none names a password/secret/token and that the model reads only suffixes "
-             "that occur in the source (no_password_key_read, model_reads_only_source_literals). Tie: configurations of every module class and profile shape rendered with two random password "
-             "assignments, all config routes x all names; each response equals the model's field by field; plus a containment TEST (labelled as a test) for the concrete password values."),
-    "note": ("Trusted: Lean kernel + 3 standard axioms; viper modelled as a flattened key-path map (validated differentially); log output and process environment not modelled. The tie is sampled."),
+    "text": ("Proof: Props/C18.lean states the property as non-interference: for every backend, world, method and path, replacing the configuration by one with the same keys that "
+             "differs only in the values of sasl.<p>.password / notifier.<n>.password leaves every response (and the world) unchanged. PROVED under the hypothesis Cfg.Plain — no configured key "
+             "(module or profile name) itself contains a dot — (responses_independent_of_passwords_partial, handler_independent_of_passwords_partial), including dotted REQUEST names that reach "
+             "into other sections, by a key-shape argument (not_password_of_suffix, leavesUnder_same) and the lemma that on a Plain configuration viper's longest-prefix, backtracking key "
+             "resolution (modelled exactly: Cfg.search) walks the key's own components (Proofs/HttpViper.lean: search_plain, norm_plain). WITHOUT the hypothesis the statement is false of the "
+             "code and the negation is proved with a witness (dotted_module_leak_witness: modules a and \"a.extras\" — GET /v3/config/notifier/a shows the second module's password), replayed "
+             "on the real server: known finding D20. The scrape does not read configuration at all; `decide` over the viper key literals REGENERATED from package httpserver shows none names a "
+             "password/secret/token and that the model reads only suffixes that occur in the source (no_password_key_read, model_reads_only_source_literals). Tie: configurations of every "
+             "module class and profile shape, with plain and dotted names, rendered with two random password assignments, all config routes x all names; each response equals the model's "
+             "field by field; plus a containment TEST (labelled as a test) for the concrete password values on both sides."),
+    "note": ("Trusted: Lean kernel + 3 standard axioms; viper modelled as a flattened raw-key-path map with its longest-prefix key resolution (validated differentially incl. dotted configured names; empty tables are leaves); log output and process environment not modelled. The tie is sampled. The unconditional statement is refuted (D20); what is proved is the _partial statement."),
 }
 
 TEXT["C19"] = {
